@@ -1,5 +1,5 @@
 """Property -> rules.  Each entry: run(prog, tier) -> (obligations, floors, meta)."""
-from .rules import bounds, arith, index, numctor, cmp, jsonw, memo, strict, lookup, tls, imports, hashord, capi, tables, ops, registry, printf, recur
+from .rules import bounds, arith, index, numctor, cmp, jsonw, memo, strict, lookup, tls, imports, hashord, capi, tables, ops, registry, printf, recur, trace
 
 COMMON_TRUST = [
     "rustc nightly HIR/MIR construction, trait resolution and const evaluation",
@@ -354,6 +354,30 @@ def c13(prog, tier):
     return obs, floors, meta
 
 
+def c18(prog, tier):
+    obs, floors, an = merge(trace.run(prog), trace.run_interner(prog), only(tls.run(prog), ("run_assertions",)),
+                            only(memo.run(prog), ("CachedUnbound.cache", "ExprArray.cached", "MappedArray.cached")))
+    meta = {
+        "level": "other",
+        "explanation": (
+            "Static decision of the structural clauses of C18. R-TRACE (type walk in the driver + MIR of every Trace::trace body): a field that a "
+            "Trace impl does not visit (#[trace(skip)] or hand-written impl) cannot own a Cc through owned fields (Weak pointers cut the walk; dyn "
+            "traits only if Acyclic is a supertrait); no type declared Acyclic (59 derives + manual unsafe impls) has a field that can own a Cc. "
+            "R-INTERN: IStr/IBytes handles are constructed only inside the interner and only from a fresh Inner::clone; nothing in the interner "
+            "forgets a handle (mem::forget / ManuallyDrop, with a workspace-wide positive control); both Drop impls call maybe_unpool; maybe_unpool "
+            "unpools exactly at strong_count <= 2; set_refcnt has exactly two writers. R-TLS: a failing object assertion leaves RUNNING_ASSERTIONS "
+            "(otherwise the object stays pinned in a thread-local). NOT decided: the collector itself (dependency), refcount protocol over histories."),
+        "rule": "R-TRACE (driver type reachability 'can own a Cc' per field + visited-field extraction from Trace::trace MIR), R-INTERN (MIR aggregate provenance, who-may-call), R-TLS",
+        "rules": ["R-TRACE", "R-INTERN", "R-TLS", "R-MEMO"],
+        "analysed": an,
+        "decided": "trace coverage of every owning path to a Cc; Acyclic declarations sound; interner handle/refcount pairing",
+        "not_decided": "collector completeness; interner behaviour over operation histories",
+        "trusted_base": COMMON_TRUST + ["jrsonnet_gcmodule's Trace/Acyclic contracts", "list of Acyclic-bounded dyn traits in rules/trace.py (checked by reading the trait declarations)"],
+        "assumptions": ["the reachability walk treats every generic argument and every field of local ADTs as owned (conservative)"],
+    }
+    return obs, floors, meta
+
+
 def c15(prog, tier):
     obs, floors, an = merge(capi.run_enter(prog), capi.run_siblings(prog), capi.run_prov(prog), capi.run_exit(prog), capi.run_visit(prog),
                             capi.run_format_map(prog), only(tls.run(prog), ("jrsonnet::main_real", "jrsonnet_cli::", "jrsonnet_evaluator::stack::set_stack")),
@@ -464,6 +488,7 @@ PROPS = {
     "C10": {"run": c10, "thorough_cfgs": ["default", "experimental"]},
     "C11": {"run": c11, "thorough_cfgs": ["default", "experimental"]},
     "C13": {"run": c13, "thorough_cfgs": ["default", "experimental"]},
+    "C18": {"run": c18, "thorough_cfgs": ["default", "experimental", "capi-nodefault"]},
     "C15": {"run": c15, "thorough_cfgs": ["default", "capi-nodefault"]},
     "C16": {"run": c16, "thorough_cfgs": ["default", "experimental"]},
     "C03": {"run": c03, "thorough_cfgs": ["default", "experimental"]},
